@@ -56,6 +56,10 @@ def gen_frame(ch, name, nr=None, nc=None, numeric=False, hier=None):
     return {'name': name, 'index': index, 'hier': hier, 'columns': COLL[:nc], 'cols': cols}
 
 
+def gen_frame_fixed(i):
+    return {'name': 'sb%d' % i, 'index': ROWL[:2 + i], 'hier': False, 'columns': COLL[:2], 'cols': [[100 * i + r for r in range(2 + i)], [100 * i + r + 0.5 for r in range(2 + i)]]}
+
+
 def build_frame(sf, spec):
     if any(isinstance(v, dict) for c in spec['cols'] for v in c):
         spec = dict(spec)
@@ -157,14 +161,14 @@ class PoolWorld(WorldBase):
         nr = ch.randint(2, 6)
         op = {'op': 'thread_pool', 'ctype': 'series', 'iface': 'iter_element',
               'spec': {'name': 'se', 'index': ROWL[:nr], 'hier': False, 'values': gen_cells(ch, nr, 1, ch.choice(['int', 'str']))},
-              'func': ch.choice(['build_and_probe', 'probe_shared', 'probe_shared']),
+              'func': ch.choice(['build_and_probe', 'probe_shared', 'probe_shared', 'probe_bus', 'sample_in_task']), 'mp': ch.choice([None, 1, 2]),
               'k': ch.randint(2, 4), 'p': ch.choice([0.02, 0.05, 0.1, 0.3]),
               'grow_ih': ch.randint(0, 3), 'grow_ix': ch.randint(0, 3), 'n': ch.randint(1, 4)}
         if ch.chance(0.25):
             n = ch.randint(2, 5)
             return {'op': 'thread_batch', 'frames': [gen_frame(ch, 'b%d' % i, nr=ch.randint(1, 4), nc=ch.randint(1, 3), numeric=True, hier=False) for i in range(n)],
                     'k': ch.randint(2, 4), 'p': ch.choice([0.02, 0.05, 0.1, 0.3]), 'grow_ih': ch.randint(0, 3), 'grow_ix': ch.randint(0, 3), 'n': ch.randint(1, 4),
-                    'shared': ch.chance(0.6), 'export': ch.choice(['to_frame', 'items', 'to_bus']), 'via': ch.choice(['apply', 'apply_items', 'attr'])}
+                    'shared': ch.chance(0.6), 'export': ch.choice(['to_frame', 'items', 'to_bus']), 'via': ch.choice(['apply', 'apply_items', 'attr', 'sample'])}
         if ch.chance(0.4):
             op['ctype'] = 'frame'
             op['spec'] = gen_frame(ch, 'fr', nr=ch.randint(2, 4), nc=ch.randint(2, 3), hier=False)
@@ -244,7 +248,7 @@ class PoolWorld(WorldBase):
                 break
         op = {'op': 'batch_pool', 'frames': frames, 'chain': chain, 'export': ch.choice(['items', 'to_frame', 'to_bus', 'items_partial', 'to_frame_axis1']),
               'source': ch.choice(['from_frames', 'items_gen', 'bus_items', 'items_eq_labels']), 'dirty_go': ch.chance(0.25),
-              'none_at': ch.randint(0, n - 1), 'eq_off': ch.randint(0, 7)}
+              'none_at': ch.randint(0, n - 1), 'eq_off': ch.randint(0, 7), 'except_any': ch.chance(0.3)}
         op.update(self._pool_params(ch, n))
         if op.get('fail_at') is not None:
             op['fail_at'] = ch.randint(0, n - 1)
@@ -441,6 +445,18 @@ class PoolWorld(WorldBase):
         def fn_for():
             if op['func'] == 'build_and_probe':
                 return functools.partial(pf.build_and_probe, n=op.get('n', 3))
+            if op['func'] == 'sample_in_task':
+                return functools.partial(pf.sample_in_task, n=op.get('n', 2))
+            if op['func'] == 'probe_bus':
+                # one lazily loaded, possibly LRU-bounded Bus shared by all tasks
+                if self.dir is None:
+                    self.dir = tempfile.mkdtemp(prefix='sfpool_', dir='/dev/shm' if os.path.isdir('/dev/shm') else None)
+                frames = [build_frame(sf, gen_frame_fixed(i)) for i in range(3)]
+                fp = os.path.join(self.dir, 'shared_bus.zip')
+                if not os.path.exists(fp):
+                    sf.Bus.from_frames(frames).to_zip_pickle(fp)
+                bus = sf.Bus.from_zip_pickle(fp, max_persist=op.get('mp'))
+                return functools.partial(pf.probe_bus, bus=bus, labels=tuple(f.name for f in frames))
             return functools.partial(pf.probe_shared, shared=self._shared(op))
         self.reset_globals()
         seq = call(lambda: self._node(c, op).apply(fn_for()))
@@ -492,6 +508,8 @@ class PoolWorld(WorldBase):
                 b = b.apply(functools.partial(pf.frame_build_probe, n=op.get('n', 3), shared=shared))
             elif op['via'] == 'apply_items':
                 b = b.apply_items(functools.partial(_probe_items, n=op.get('n', 3), shared=shared))
+            elif op['via'] == 'sample':
+                b = b.sample(1, seed=11)
             else:
                 b = b.iloc[:1].apply(functools.partial(pf.frame_build_probe, n=op.get('n', 3), shared=shared))
             if op['export'] == 'to_frame':
@@ -545,7 +563,7 @@ class PoolWorld(WorldBase):
             elif step == 'apply_element':
                 b = b.apply(functools.partial(pf.frame_to_element, fail_on=fail_label))
             elif step == 'apply_except':
-                b = b.apply_except(functools.partial(pf.frame_fn, fail_on=fail_label), pf.TaskFailure)
+                b = b.apply_except(functools.partial(pf.frame_fn, fail_on=fail_label), Exception if self._except_any else pf.TaskFailure)
             elif step == 'apply_items_except':
                 b = b.apply_items_except(functools.partial(pf.frame_fn_items, fail_on=fail_label), pf.TaskFailure)
             elif step == 'iloc':
@@ -642,6 +660,7 @@ class PoolWorld(WorldBase):
         if op.get('fail_at') is not None:
             fail_label = op['frames'][op['fail_at'] % len(op['frames'])]['name']
         none_label = op['frames'][op.get('none_at', 0) % len(op['frames'])]['name']
+        self._except_any = bool(op.get('except_any'))
         b = self._batch_chain(b, op['chain'], fail_label, workers, none_label)
         ex = op['export']
         if ex == 'items':
@@ -742,6 +761,11 @@ class PoolWorld(WorldBase):
                 except pf.TaskFailure:
                     if step in ('apply_except', 'apply_items_except', 'apply_none_except'):
                         dropped = True
+                        break
+                    raise
+                except Exception:
+                    if step == 'apply_except' and op.get('except_any'):
+                        dropped = True  # this stage silences every Exception
                         break
                     raise
                 if not isinstance(c, (sf.Frame, sf.Series)):
